@@ -274,24 +274,30 @@ func main() {
 	cw.PerFile = 50 // elaborating the case terms dominates; small shards keep all cores busy
 
 	// ---- racing acquisitions: 16 goroutines ----
-	G, iters := 16, o.Count(300, 6000)
-	acq, dup, bad := raceIDs(o.Seed, G, iters)
-	sum.Extra["race_goroutines"] = G
-	sum.Extra["race_acquisitions"] = acq
-	if dup != 0 {
-		sum.Fail(fmt.Sprintf("two racing acquisitions observed the same node ID %d", dup), map[string]interface{}{"kind": "race", "goroutines": G, "iterations": iters, "seed": o.Seed}, nil)
-	}
-	if bad != "" {
-		sum.Fail("a goroutine's own tree became unsound while others were acquiring/releasing nodes: "+bad, map[string]interface{}{"kind": "race", "goroutines": G, "iterations": iters, "seed": o.Seed}, nil)
+	runRace := func() {
+		G, iters := 16, o.Count(300, 6000)
+		acq, dup, bad := raceIDs(o.Seed, G, iters)
+		sum.Extra["race_goroutines"] = G
+		sum.Extra["race_acquisitions"] = acq
+		sum.Hist("race-run")
+		desc := map[string]interface{}{"kind": "race", "goroutines": G, "iterations": iters, "seed": o.Seed}
+		if dup != 0 {
+			sum.Fail(fmt.Sprintf("two racing acquisitions observed the same node ID %d", dup), desc, nil)
+		}
+		if bad != "" {
+			sum.Fail("a goroutine's own tree became unsound while others were acquiring/releasing nodes: "+bad, desc, nil)
+		}
+		if *raceOnly {
+			fmt.Printf("race: %d goroutines, %d acquisitions, duplicate ID: %d, defect: %q\n", G, acq, dup, bad)
+			if dup != 0 || bad != "" {
+				os.Exit(1)
+			}
+			os.Exit(0)
+		}
 	}
 	if *raceOnly {
-		fmt.Printf("race: %d goroutines, %d acquisitions, duplicate ID: %d, defect: %q\n", G, acq, dup, bad)
-		if dup != 0 || bad != "" {
-			os.Exit(1)
-		}
-		return
+		runRace()
 	}
-
 	replay, corpus := loadCases(o)
 	for _, c := range corpus {
 		finishHist(sum, cw, runCase(c, r), "corpus")
@@ -309,6 +315,7 @@ func main() {
 			finishHist(sum, cw, genHistory(r, caching, 80), "generated")
 		}
 		readerTrees(r, sum, cw, o.Count(12, 400))
+		runRace()
 	}
 	cw.Flush()
 	sum.CaseFiles = cw.Files
